@@ -204,6 +204,8 @@ func initArrayList() {
 				if value.Truthy(isEqual) {
 					self.RemoveAt(i)
 					removed = true
+					// the following elements moved one place down: look at this index again
+					i--
 				}
 			}
 
